@@ -56,7 +56,7 @@ type cpData struct {
 
 // NewLab opens the database and returns a lab for history h.
 func NewLab(backend, dir string, h *History) (*Lab, error) {
-	raw, err := Open(backend, dir)
+	raw, err := OpenWith(backend, dir, h != nil && h.DiscardWriteLogs)
 	if err != nil {
 		return nil, err
 	}
@@ -464,7 +464,7 @@ func (l *Lab) Do(i int) (res OpResult) {
 		before()
 		l.dropTrees() // a tree cannot outlive its database
 		l.Raw.Close()
-		raw, err := Open(l.Backend, l.Dir)
+		raw, err := OpenWith(l.Backend, l.Dir, l.H != nil && l.H.DiscardWriteLogs)
 		after()
 		if err != nil {
 			res.Class, res.ErrText = ErrClass(err), "reopen: "+err.Error()
